@@ -126,6 +126,7 @@ def run(ctx):
         ctx.ob("R23.1", f"{mod}.{fname}:mask", okr, "the front is masked by the material array (its complement for the air fill)", leaf, ("not " if want_neg else "") + "matrix")
     _dilation_round(ctx)
     _seed(ctx)
+    _air_seed_and_exit(ctx)
     _selection(ctx)
     _fresh_connectivity(ctx)
     ctx.require_count("C23", len(ctx.obligations), 14)
@@ -215,6 +216,79 @@ def _seed(ctx):
             # region key: full slices on x and y, index 0 on z
             ok = desc == ("region", ("slice(None, None, None)", "slice(None, None, None)", "0")) or desc == ("region", (("slice", "None", "None", "None"), ("slice", "None", "None", "None"), "0"))
     ctx.ob("R23.1", "compute_polymer_connection:seed", ok, "the fill starts from exactly the bottom layer [..., 0]", desc if desc else v, "indicator of [:, :, 0]")
+
+
+def _air_seed_and_exit(ctx):
+    """(a) the air fill starts from the air cells of the five open faces (four sides and the top) and from nothing else —
+    a material cell on a side face is not a source of ventilation; (b) the fixpoint loop goes on exactly while the front
+    changed (comparing the masks, not their sizes)."""
+    import itertools
+
+    ix = ctx.index
+    f = ix.function("fdtdx.objects.device.parameters.binary_transform.compute_air_connection")
+    n = 3
+    cells = list(itertools.product(range(n), repeat=3))
+    patterns = {
+        "all material": {c: True for c in cells},
+        "all air": {c: False for c in cells},
+        "mixed": {c: ((c[0] + 2 * c[1] + c[2]) % 3 == 0) for c in cells},
+    }
+    bad = []
+    captured = {}
+    for tag, pat in patterns.items():
+        it = ctx.fresh_interp()
+        got = {}
+
+        def wl(it_, a, k, _g=got):
+            _g["cond"], _g["body"], _g["init"] = a[0], a[1], a[2]
+            return a[2]
+
+        stub_ext(
+            it,
+            {
+                "jax.lax.while_loop": wl,
+                "jax.lax.fori_loop": lambda it_, a, k, _g=got: _g.setdefault("init", a[3]) and a[3],
+                "np.zeros_like": lambda it_, a, k: NdArr(a[0].shape, [False] * len(a[0].data)),
+                "np.invert": lambda it_, a, k: NdArr(a[0].shape, [not bool(v) for v in a[0].data]),
+            },
+        )
+        m = NdArr((n, n, n), [pat[c] for c in cells])
+        try:
+            it.call(it.closure_of(f), [m], {})
+        except Raised as r:
+            raise AnalysisError(f"compute_air_connection raises on a concrete {n}x{n}x{n} design: {r}")
+        init = got.get("init")
+        seed = init[-1] if isinstance(init, tuple) else init
+        if not (isinstance(seed, NdArr) and seed.shape == (n, n, n)):
+            raise AnalysisError(f"compute_air_connection: cannot capture the seed of the fill ({seed!r})")
+        for c, v in zip(cells, seed.data):
+            on_open_face = c[0] in (0, n - 1) or c[1] in (0, n - 1) or c[2] == n - 1
+            want = on_open_face and not pat[c]
+            gv = v if isinstance(v, bool) else (not to_rat(v).is_zero())
+            if gv != want:
+                bad.append((tag, c, gv, want))
+        captured = got
+    ctx.ob("R23.1", "compute_air_connection:seed", not bad, "the air fill starts from exactly the air cells on the four side faces and the top face (never from a material cell on a face, never from the bottom face alone)", bad[:3], "face cell and not material")
+    cond = captured.get("cond")
+    if cond is None:
+        ctx.ob("R23.2", "flood-fill:exit-test", False, "the fill runs as a fixpoint loop", "no while_loop", "while_loop")
+        return
+    A = NdArr((2, 2), [True, False, False, True])
+    B = NdArr((2, 2), [False, True, True, False])  # same number of cells, different cells
+    C = NdArr((2, 2), [True, True, False, True])
+    it = ctx.fresh_interp()
+    truth = lambda x: x if isinstance(x, bool) else (not to_rat(x).is_zero())
+    stub_ext(it, {"np.any": lambda it_, a, k: any(truth(x) for x in (a[0].data if isinstance(a[0], NdArr) else [a[0]])), "np.sum": lambda it_, a, k: sum(1 for x in a[0].data if truth(x))})
+    res = {}
+    for tag, (p_, c_) in {"same mask": (A, A), "same size, different cells": (A, B), "grown": (A, C)}.items():
+        try:
+            v = it.call(cond, [(p_, c_)], {})
+        except Raised as r:
+            raise AnalysisError(f"the exit test of the fixpoint loop raises: {r}")
+        if isinstance(v, NdArr) and len(v.data) == 1:
+            v = v.data[0]
+        res[tag] = v if isinstance(v, bool) else (not to_rat(v).is_zero())
+    ctx.ob("R23.2", "flood-fill:exit-test", res == {"same mask": False, "same size, different cells": True, "grown": True}, "the loop continues exactly while the front differs from the previous one as a set of cells (the first round of the material fill shrinks the seeded bottom layer to its material cells: equal sizes do not mean convergence)", res, "stop only on identical masks")
 
 
 def _selection(ctx):
